@@ -828,6 +828,101 @@ func nestedBER(depth int, indefinite bool) []byte {
 	return b
 }
 
+// lengthLimitFamily: TLVs whose long-form length uses 1..10, 126, 127 length octets with values around the limits of
+// each width (all ff, 7f ff.., 80 00.., 00..01, 01 00.., 2^31-1, 2^31, 2^31+1, 2^32-1, 2^32, 2^32+1, 2^63-1-k for
+// k = 0..40, 2^63, 2^64-1-k), for a primitive and a constructed tag, alone, after a sibling, and nested inside
+// definite and indefinite constructed values (depth 1 and 2), with 0 or 3 content octets behind the length.
+func lengthLimitFamily() [][]byte {
+	be := func(v uint64, w int) []byte {
+		o := make([]byte, w)
+		for i := w - 1; i >= 0 && i >= w-8; i-- {
+			o[i] = byte(v)
+			v >>= 8
+		}
+		return o
+	}
+	var lens [][]byte // the length octets behind 0x80|w
+	seen := map[string]bool{}
+	addL := func(o []byte) {
+		if len(o) > 127 {
+			return
+		}
+		l := append([]byte{0x80 | byte(len(o))}, o...)
+		if !seen[string(l)] {
+			seen[string(l)] = true
+			lens = append(lens, l)
+		}
+	}
+	for _, w := range []int{1, 2, 3, 4, 5, 6, 7, 8, 9, 10, 126, 127} {
+		addL(bytes.Repeat([]byte{0xff}, w))
+		addL(append([]byte{0x7f}, bytes.Repeat([]byte{0xff}, w-1)...))
+		addL(append([]byte{0x80}, bytes.Repeat([]byte{0x00}, w-1)...))
+		addL(append([]byte{0x01}, bytes.Repeat([]byte{0x00}, w-1)...))
+		addL(append(bytes.Repeat([]byte{0x00}, w-1), 0x01))
+		if w >= 4 {
+			for _, v := range []uint64{1<<31 - 1, 1 << 31, 1<<31 + 1, 1<<32 - 1} {
+				addL(be(v, w))
+				if w > 4 {
+					addL(be(v, 4))
+				}
+			}
+		}
+		if w >= 5 {
+			for _, v := range []uint64{1 << 32, 1<<32 + 1} {
+				addL(be(v, w))
+				addL(be(v, 5))
+			}
+		}
+		if w >= 8 {
+			kmax := uint64(40)
+			if w > 8 {
+				kmax = 2
+			}
+			for k := uint64(0); k <= kmax; k++ {
+				addL(be(1<<63-1-k, w))
+			}
+			addL(be(1<<63, w))
+			addL(be(1<<63+1, w))
+			for k := uint64(0); k <= 12 && (w == 8 || k <= 1); k++ {
+				addL(be(^uint64(0)-k, w))
+			}
+		}
+	}
+	for w := 1; w <= 7; w++ { // 2^(8w-1)-1-k and 2^(8w)-1-k of the narrower widths
+		for k := uint64(0); k <= 3; k++ {
+			addL(be(1<<(8*uint(w)-1)-1-k, w))
+			addL(be(1<<(8*uint(w))-1-k, w))
+		}
+	}
+	var out [][]byte
+	for _, l := range lens {
+		for _, tag := range []byte{0x04, 0x30, 0xa0} {
+			for _, tail := range [][]byte{nil, {1, 2, 3}} {
+				t := append(append([]byte{tag}, l...), tail...)
+				out = append(out, t)
+				if tail != nil && tag == 0xa0 {
+					continue
+				}
+				// a length that a reader of 8+ octets would take as negative is nested only under the primitive tag:
+				// a constructed child that hands back an offset before its own start makes an unguarded parent loop
+				// re-read and allocate without end, which the in-process guard cannot stop (the driver would be killed)
+				if tag != 0x04 && len(l) > 8 && l[len(l)-8] >= 0x80 {
+					continue
+				}
+				sib := append([]byte{0x04, 0x01, 0x00}, t...)
+				out = append(out, sib)
+				out = append(out, append(append([]byte{0x30}, derLen(len(t))...), t...))
+				out = append(out, append(append([]byte{0x30, 0x80}, t...), 0, 0))
+				out = append(out, append(append([]byte{0x30, 0x80, 0xa0, 0x80}, sib...), 0, 0, 0, 0))
+				in2 := append(append([]byte{0xa0}, derLen(len(sib))...), sib...)
+				out = append(out, append(append([]byte{0x30}, derLen(len(in2))...), in2...))
+				out = append(out, append(append([]byte{0x30, 0x80}, in2...), 0, 0))
+			}
+		}
+	}
+	return out
+}
+
 func overlapInput(k int) []byte {
 	b := []byte{0x05, 0x00}
 	for i := 0; i < k; i++ {
@@ -1239,6 +1334,13 @@ func gen(seed uint64, tier string) []string {
 	for _, s := range []string{"", "30", "3082", "308201", "3f81", "3f8181", "1f", "3080", "30800000", "308000000000", "30800500", "3080050000", "30800500000000",
 		"3084ffffffff", "308480000000", "308400000001", "30810005", "3081", "308100", "3000", "0500", "2480040101040102" + "0000", "30031f8100", "300330800000", "a080a080a0800000" + "00000000"} {
 		emit(bb, hx.UnHex(strings.ReplaceAll(s, " ", "")))
+	}
+	// long-form lengths of every width around each width's limits (round 6): through the model (BER) and through
+	// every decoder that reaches ber.go (ber, p7), at top level and nested in definite / indefinite constructed values
+	for _, x := range lengthLimitFamily() {
+		emit(bb, x)
+		emit(base{dec: "ber"}, x)
+		emit(base{dec: "p7", aux: []string{"signed"}}, x)
 	}
 	for i := 0; i < 300; i++ {
 		emit(bb, r.Bytes(r.Intn(40)))
